@@ -306,6 +306,11 @@ def box(sv, facts):
         facts.add(S.unb_g_eattr(b) == ea)
         facts.add(S.box_kind(b) == S.BK_GRAPH)
         return V.box(b)
+    if k == "pathobj":
+        f_mk = z3.Function("mk_path", S.Str, V)
+        f_str = z3.Function("path_str_of", V, S.Str)
+        facts.add(f_str(f_mk(sv.t)) == sv.t)
+        return f_mk(sv.t)
     if k == "class":
         # class objects as values (e.g. `cast` in parse_value): a distinguished object per class name
         return class_value(sv.t)
@@ -379,6 +384,8 @@ def unbox(v, ty, facts, assume_types=True):
             out.append(unbox(V.fst(cur), it, facts, assume_types))
             cur = V.snd(cur)
         return sv_tuple(out)
+    if isinstance(ty, TObj) and ty.cls == "PosixPath":
+        return SV("pathobj", z3.Function("path_str_of", V, S.Str)(v), TAny)
     if isinstance(ty, TObj):
         if assume_types:
             facts.add(V.is_obj(v))
